@@ -411,7 +411,7 @@ def chainOracle : Oracle :=
     | _ => .nil, fun _ => false⟩
 
 /-- Non-vacuity: the chain oracle is ranked (rank 1 for widget 1, 0 elsewhere), … -/
-example : NotifRanked chainOracle (fun w => if w = 1 then 1 else 0) := by
+theorem chainOracle_ranked : NotifRanked chainOracle (fun w => if w = 1 then 1 else 0) := by
   intro w ph k
   constructor
   · intro a ha w' hw'
